@@ -30,7 +30,14 @@ def main():
         ctx.budget_s = 1e9
         mod.replay(rec["case"], ctx)
     else:
+        import random
+
+        from pgverif import pgx
+
+        pgx.NEUTRAL_RNG = random.Random((a.seed * 7919 + a.shard * 104729 + 5) & 0xFFFFFFFF)
         mod.run(ctx)
+        if pgx.NEUTRAL_COUNT[0]:
+            ctx.count("parsers_built_with_explicit_default_options", pgx.NEUTRAL_COUNT[0])
     with open(a.out, "w") as f:
         json.dump(ctx.dump(), f, default=str)
     return 0
